@@ -58,6 +58,8 @@ from ..refmodel import fit
 FN_T = 'mc.checks.c09_receivers:case_transpose'
 FN_N = 'mc.checks.c09_receivers:case_nan'
 FN_R = 'mc.checks.c09_receivers:case_reciprocity'
+FN_O = 'mc.checks.c09_receivers:case_orient'
+FN_S = 'mc.checks.c09_receivers:case_hseq'
 
 AZIMUTHS = (0.0, 90.0, 180.0, -90.0, 45.0, -135.0)
 ELEVATIONS = (0.0, 90.0, -90.0, 30.0, -35.0)
@@ -693,6 +695,135 @@ def reciprocity_cases(tier, mode):
     return out
 
 
+# --------------------------------------------------------------------------
+# one call with several receivers of different orientation
+
+def orient_sets(tier):
+    """Orientation combinations sampled together in ONE get_receiver call:
+    all unordered pairs of the 30 (azimuth, elevation) pairs, all triples of
+    the 14 axis-aligned / axis-perpendicular ones (thorough: of all 30), and
+    per Cartesian component the sets of all orientations whose factor for
+    that component is <= 0 (>= 0)."""
+    ang = list(itertools.product(AZIMUTHS, ELEVATIONS))
+    idx = range(len(ang))
+    sets = [(i, j) for i, j in itertools.combinations(idx, 2)]
+    axis = [i for i in idx if sum(abs(x) < 1e-12 for x in
+                                  rot_ref(*ang[i])) >= 1]
+    pool = list(idx) if tier == 'thorough' else axis
+    sets += list(itertools.combinations(pool, 3))
+    for d in range(3):
+        for sg in (1, -1):
+            sets.append(tuple(i for i in idx
+                              if sg*rot_ref(*ang[i])[d] <= 1e-12))
+    return ang, sets
+
+
+def case_orient(c):
+    """Every receiver of a multi-receiver call gets the value of the linear
+    functional of its own position and orientation (reference trilinear
+    weights), electric and magnetic, whatever the other receivers of the same
+    call look like."""
+    import emg3d
+    grid = zoo.mesh(c['grid'])
+    ang, sets = orient_sets(c['tier'])
+    sets = sets[c['lo']:c['hi']]
+    P = interior_positions(grid, FRACS_Q)
+    pos = P[[1, len(P)//2, len(P) - 2]]
+    F = emg3d.Field(grid, zoo.random_field(grid, 'c09o', complex, pec=True),
+                    frequency=1.0)
+    model = zoo.model(grid, {'case': 'triaxial', 'prof': 'rnd'})
+    H = emg3d.get_magnetic_field(model, F)
+    tri_e, tri_h = Trilinear(grid, True), Trilinear(grid, False)
+    sc_e, sc_h = np.abs(F.field).max(), np.abs(H.field).max()
+    viol, compared = [], 0
+    for st in sets:
+        AZ = np.array([ang[i][0] for i in st for _ in pos])
+        EL = np.array([ang[i][1] for i in st for _ in pos])
+        PA = np.array([p for _ in st for p in pos])
+        for fld, tri, sc, kind in ((F, tri_e, sc_e, 'electric'),
+                                   (H, tri_h, sc_h, 'magnetic')):
+            got = _rx(fld, PA, AZ, EL)
+            want = np.array([tri.row(PA[i], rot_ref(AZ[i], EL[i])) @
+                             fld.field for i in range(len(PA))])
+            compared += len(PA)
+            err = np.abs(got - want)/sc
+            k = int(np.argmax(np.where(np.isnan(err), np.inf, err)))
+            if not err[k] <= 1e-12:
+                viol.append({
+                    'cls': f'{kind}-receiver-in-mixed-orientation-call-'
+                           'differs-from-its-functional',
+                    'what': f'orientations {[ang[i] for i in st]} in one '
+                            f'call: receiver {k} (az={AZ[k]}, el={EL[k]}) '
+                            f'off by {err[k]:.2e} of the field scale',
+                    'observed': got, 'expected': want})
+                if len(viol) > 6:
+                    break
+        if len(viol) > 6:
+            break
+    return {'viol': viol, 'compared': compared, 'transitions': 2*len(sets),
+            'nontrivial': len(sets) > 0,
+            'outcome': (c['lo'] // 1000, len(viol) > 0),
+            'count': {'orientation_sets': len(sets)}}
+
+
+def orient_cases(tier):
+    _, sets = orient_sets(tier)
+    out = []
+    for g in (GRIDS_Q[:1] if tier == 'quick' else GRIDS_Q):
+        for lo in range(0, len(sets), 60):
+            out.append({'grid': g, 'tier': tier, 'lo': lo,
+                        'hi': min(lo + 60, len(sets))})
+    return out
+
+
+# --------------------------------------------------------------------------
+# sequences of get_magnetic_field calls on ONE model object
+
+SEQ_FREQS = (1.0, 4.0, -2.0, -5.0)
+
+
+def case_hseq(c):
+    """get_magnetic_field(model, E) for a sequence of fields of different
+    frequency / Laplace parameter on the SAME Model instance: every result
+    equals the reference discrete Faraday law for its own s (nothing of an
+    earlier call may stick to the model or the grid)."""
+    import emg3d
+    grid = zoo.mesh(c['grid'])
+    model = zoo.model(grid, c['model'])
+    viol, compared = [], 0
+    for k, freq in enumerate(c['seq']):
+        sval = zoo.sval_of(freq)
+        dt = complex if freq > 0 else float
+        e = emg3d.Field(grid, zoo.random_field(grid, ('c09s', k), dt,
+                                               pec=True), frequency=freq)
+        h = emg3d.get_magnetic_field(model, e)
+        want = faraday_ref(grid, model, sval) @ e.field
+        compared += 1
+        err = np.abs(h.field - want).max()/np.abs(want).max()
+        if not err <= 1e-12 or h.field.dtype != e.field.dtype:
+            viol.append({
+                'cls': 'magnetic-field-depends-on-earlier-calls' if k else
+                       'magnetic-field-differs-from-reference-faraday',
+                'what': f"call {k+1} of sequence {c['seq']} on one model "
+                        f"({c['model']}): rel. error {err:.2e}, dtype "
+                        f"{h.field.dtype}"})
+            break
+    return {'viol': viol, 'compared': compared,
+            'transitions': len(c['seq']), 'nontrivial': len(c['seq']) > 1,
+            'outcome': (len(c['seq']), c['seq'][0] > 0)}
+
+
+def hseq_cases(tier):
+    out = []
+    depth = 3 if tier == 'quick' else 4
+    for ms in MODELS_M if tier == 'quick' else MODELS_M_T:
+        for d in range(1, depth + 1):
+            for seq in itertools.product(SEQ_FREQS, repeat=d):
+                out.append({'grid': GRIDS_Q[0], 'model': ms,
+                            'seq': list(seq)})
+    return out
+
+
 def prepare(ctx):
     impl.warm()
     import emg3d
@@ -737,6 +868,24 @@ def run(ctx):
                  'get_magnetic_field per model x s; non-trivial = some '
                  'functional has more than one weight',
             time_cap=ctx.budget or (320 if q else 1400), chunksize=1)
+    if ctx.wants('orientation-batches'):
+        ctx.explore(
+            'orientation-batches', FN_O, orient_cases(ctx.tier), engine='E1',
+            rule='one get_receiver call per orientation combination: all '
+                 'pairs of the 30 (azimuth, elevation) pairs, all triples of '
+                 'the axis-related ones (thorough: of all 30), sign-'
+                 'restricted sets per component; 3 positions each, E and H '
+                 'field; every receiver = its own reference functional',
+            time_cap=ctx.budget or (240 if q else 900), chunksize=1)
+    if ctx.wants('magnetic-field-sequences'):
+        ctx.explore(
+            'magnetic-field-sequences', FN_S, hseq_cases(ctx.tier),
+            engine='E2',
+            rule='all sequences up to length 3 (thorough 4) over 4 frequency '
+                 '/ Laplace values of get_magnetic_field calls on ONE Model '
+                 'instance; every result = reference Faraday law for its own '
+                 's; non-trivial = more than one call',
+            time_cap=ctx.budget or (240 if q else 600))
     if ctx.wants('nan'):
         ctx.explore(
             'nan', FN_N, nan_cases(ctx.tier), engine='E1',
